@@ -11,7 +11,9 @@
 #include "alloc.h"
 #include "cstl/vector.h"
 
-static size_t ESZ; static int HASX, MAXN, SWAP;
+static size_t ESZ; static int HASX, MAXN, SWAP;      /* HASX: 0 no callbacks, 1 constructor and destructor, 2 constructor only, 3 destructor only */
+#define HASC (HASX == 1 || HASX == 2)
+#define HASD (HASX == 1 || HASX == 3)
 static struct cstl_vector V[2];
 static int cur;
 
@@ -52,13 +54,13 @@ static void drv_setup(int argc, char **argv)
     ESZ = (size_t)atoi(argv[0]); HASX = atoi(argv[1]); MAXN = atoi(argv[2]);
     if (argc > 3) SWAP = atoi(argv[3]);
 }
-static void drv_header(jb_t *b) { jb_printf(b, "\"esz\":%zu,\"hasx\":%s,\"maxn\":%d", ESZ, HASX ? "true" : "false", MAXN); }
+static void drv_header(jb_t *b) { jb_printf(b, "\"esz\":%zu,\"hasx\":%d,\"maxn\":%d", ESZ, HASX, MAXN); }
 static void vinit(struct cstl_vector *v)
 {
 #ifdef USE_INITIALIZER
     if (!HASX && ESZ == 4) { struct cstl_vector x = CSTL_VECTOR_INITIALIZER(uint32_t); *v = x; return; }
 #endif
-    if (HASX) cstl_vector_init_complex(v, ESZ, ctor, dtor, E_PRIV); else cstl_vector_init(v, ESZ);
+    if (HASX) cstl_vector_init_complex(v, ESZ, HASC ? ctor : NULL, HASD ? dtor : NULL, E_PRIV); else cstl_vector_init(v, ESZ);
 }
 static void drv_reset(void)
 {
@@ -72,7 +74,7 @@ static void drv_aborted(void) { a_end(); }
 static void fill_new(size_t from)
 {
     struct cstl_vector *v = &V[cur]; size_t i;
-    if (HASX || !v->elem.base) return;
+    if (HASC || !v->elem.base) return;           /* without a constructor the caller initialises new elements */
     for (i = from; i < v->count && i < 100000; i++) put_tag((unsigned char *)v->elem.base + i * ESZ, (int)(i + 1));
 }
 static void drv_apply(const vop_t *op, jb_t *res)
@@ -128,7 +130,7 @@ static void drv_ser(jb_t *b)
     long bytes = blk && blk->live ? small(blk->n) : -1;
     int bad = 0; size_t i;
     if (v->elem.base && bytes < 0) bad = 1;
-    if (v->elem.size != ESZ || (v->elem.xtor.cons != NULL) != (HASX != 0) || (v->elem.xtor.dest != NULL) != (HASX != 0)) bad = 1;
+    if (v->elem.size != ESZ || (v->elem.xtor.cons != NULL) != (HASC != 0) || (v->elem.xtor.dest != NULL) != (HASD != 0)) bad = 1;
     if (o->elem.size != ESZ + 3 || (o->elem.xtor.cons != NULL) == (HASX != 0)) bad = 1;
     jb_printf(b, "{\"base\":%s,\"blk\":%ld,\"count\":%ld,\"cap\":%ld,\"tags\":[", v->elem.base ? "true" : "false",
               v->elem.base ? bytes : 0L, small(v->count), small(v->cap));
